@@ -182,6 +182,8 @@ def parent_main(args):
         distinct.update(r['distinct'])
         violations.extend(r['violations'])
         overflow += r['viol_overflow']
+        if r['counters'].get('violations.dropped-group-limit'):
+            problems.append('a worker saw more than %d distinct violation groups: some were not recorded' % core.Ctx.MAX_GROUPS)
         for s in r['samples']:
             if len(samples) < 24:
                 samples.append(s)
